@@ -144,6 +144,9 @@ type Case struct {
 	Access   string            `json:"access_list"` // all | none | partial
 	Lockups  []LockupSeed      `json:"lockups"`
 	Commit   bool              `json:"committed_prestate"`
+	// InboundETX: the message is an inbound cross-chain transaction (from the zero
+	// address, value placed there beforehand, no gas purchase) as core.ApplyTransaction runs it
+	InboundETX bool `json:"inbound_etx"`
 
 	codes   [NContracts][]byte
 	to      *common.Address
@@ -628,6 +631,7 @@ func GenCase(r *rand.Rand, id int, o GenOpts) *Case {
 	if c.to != nil {
 		c.To = c.to.Hex()
 	}
+	c.InboundETX = c.to != nil && g.chance(12)
 	c.value = big.NewInt(0)
 	if g.chance(40) {
 		c.value = new(big.Int).Mul(big.NewInt(int64(1+g.pick(10))), params.MinQuaiConversionAmount)
@@ -806,12 +810,26 @@ func Run(c *Case, logger *log.Logger) *Exec {
 	ex.Refund = new(big.Int).Mul(bctx.BaseFee, new(big.Int).SetUint64(params.CallNewAccountGas(quaiStateSize)))
 	msg := &Msg{from: Sender, to: c.to, value: c.value, gas: c.Gas, price: c.price, data: c.data, al: c.access,
 		hash: common.BigToHash(big.NewInt(int64(c.ID) + 1)), nonce: 0}
+	zero := common.ZeroInternal(Loc)
+	var prevZero *big.Int
+	if c.InboundETX {
+		// what core.ApplyTransaction does around an ExternalTx: park the value on the zero address
+		msg.from, msg.isETX, msg.etxSendr, msg.price = common.ZeroAddress(Loc), true, ExtZone, new(big.Int)
+		if msg.gas > bctx.GasLimit/params.MinimumEtxGasDivisor {
+			msg.gas = bctx.GasLimit / params.MinimumEtxGasDivisor
+		}
+		prevZero = new(big.Int).Set(st.GetBalance(zero))
+		st.SetBalance(zero, new(big.Int).Set(c.value))
+	}
 	ex.T = newTracer(ex)
 	ex.P = newProxy(ex, st)
 	cfg := params.ChainConfig{ChainID: big.NewInt(1337), Location: Loc}
 	evm := vm.NewEVM(bctx, core.NewEVMTxContext(msg), ex.P, &cfg, vm.Config{Debug: true, Tracer: ex.T}, batch)
 	ex.EVM = evm
 	ex.Before = ex.balances()
+	if c.InboundETX {
+		ex.Before[common.AddressBytes(zero)] = new(big.Int).Set(prevZero) // the parked value is the inbound credit, not part of "before"
+	}
 	ex.PayerBefore = new(big.Int).Set(ex.Before[Sender.Bytes20()])
 	func() {
 		defer func() {
@@ -827,6 +845,9 @@ func Run(c *Case, logger *log.Logger) *Exec {
 	// transaction failed; do the same before the last (top-level) comparison
 	if ex.Res != nil && ex.Res.Failed() {
 		evm.UndoCoinbasesDeleted()
+	}
+	if c.InboundETX {
+		st.SetBalance(zero, prevZero) // as ApplyTransaction: a failed ETX's value is gone, residue too
 	}
 	ex.P.flush()
 	ex.T.Close(nil)
